@@ -88,6 +88,7 @@ def run(ctx):
     cases = poolrun.make_cases(ctx, 400 if thorough else 50, 300 if thorough else 40, 0, 0, cfgs)
     # the free lists themselves, driven directly, in lock-step with their Exec models (link order / sorted order, cursor)
     import os
+    build.warm(cfgs, [('invalid', ['h_invalid.cpp'], dict(extra=['-I', os.path.join(build.REPO, 'src')]))])
     ex_list = {c: build.build_harness('invalid', c, ['h_invalid.cpp'], extra=['-I', os.path.join(build.REPO, 'src')]) for c in cfgs}
     for i in range(120 if thorough else 20):
         for kind, topic in (('unord', 'unord'), ('ord', 'ord')):
